@@ -40,6 +40,7 @@ def unit_load_data(tier=None, seed=None):
     st = {}
 
     def setup(I):
+        st.pop("find_modality", None)
         mod = I.module("nanite.read")
         n, ii = z3.Int("n_files"), z3.Int("file_index")
         I.assume(z3.And(n >= 1, ii >= 0, ii < n))
